@@ -6,9 +6,6 @@ use vstd::prelude::*;
 
 verus! {
 
-// the crate is verified for 64-bit targets (A1)
-global size_of usize == 8;
-
 /*@rules R1 R2(elem=(Range<u32>, T)) R3 R4 R5 R6 R9 R10 @*/
 
 pub mod vx_base {
@@ -358,7 +355,7 @@ pub mod vx_ids {
         @loop 1
             invariant
                 canon(self@),
-                0 < self@.len() <= 0x0fff_ffff_ffff_ffff,
+                0 < self@.len() <= usize::MAX / 8,
                 left <= self@.len(),
                 right < self@.len(),
                 forall|i: int| 0 <= i < left ==> (#[trigger] self@[i]).0.end <= clock,
